@@ -128,6 +128,16 @@ def eqUpTo : List Char → List Char → Prop
   | a :: as, b :: bs => sameUpTo a b ∧ eqUpTo as bs
   | _, _ => False
 
+instance eqUpToDec : (a b : List Char) → Decidable (eqUpTo a b)
+  | [], [] => isTrue trivial
+  | [], _ :: _ => isFalse (by simp [eqUpTo])
+  | _ :: _, [] => isFalse (by simp [eqUpTo])
+  | a :: as, b :: bs =>
+    match (inferInstance : Decidable (sameUpTo a b)), eqUpToDec as bs with
+    | isTrue h1, isTrue h2 => isTrue ⟨h1, h2⟩
+    | isFalse h1, _ => isFalse (fun h => h1 h.1)
+    | _, isFalse h2 => isFalse (fun h => h2 h.2)
+
 /-! ## 3. Scanner results -/
 
 inductive ErrClass where
@@ -142,6 +152,7 @@ inductive ErrClass where
   | expectedChar (c : Char)    -- "expected \"<c>\"."
   | expectedToken              -- "Expected token."
   | expectedString             -- "Expected string."
+  | silentCommentInCss         -- "Silent comments aren't allowed in plain CSS."
   deriving DecidableEq, Repr, Inhabited
 
 /-- Which lexer span an error carries (`current_span`, `prev_span`, `span_from(start)`), as token
@@ -335,6 +346,13 @@ theorem sassLoudBody_adv (s : Array Char) (i j : Nat) (h : sassLoudBody s i = .o
 
 /-! ## 7. `whitespace` with comments (base.rs:24, `scan_comment` base.rs:36) -/
 
+/-- The three stylesheet parsers. -/
+inductive Syn where
+  | scss | sass | css
+  deriving DecidableEq, Repr, Inhabited
+
+def Syn.ind (y : Syn) : Bool := y == .sass
+
 def loudFor (ind : Bool) (s : Array Char) (i : Nat) : Res :=
   if ind then sassLoudBody s i else loudBody s i
 
@@ -345,15 +363,18 @@ theorem loudFor_adv (ind : Bool) (s : Array Char) (i j : Nat) (h : loudFor ind s
   · exact sassLoudBody_adv s i j h
   · exact loudBody_adv s i j h
 
-/-- `loop { whitespace_without_comments(); if !scan_comment()? { break } }` -/
-def whitespace (ind : Bool) (s : Array Char) (i : Nat) : Res :=
-  let j := wsNoComments ind s i
+/-- `loop { whitespace_without_comments(); if !scan_comment()? { break } }`.
+    In plain CSS `skip_silent_comment` is an error (css.rs:28). -/
+def whitespace (y : Syn) (s : Array Char) (i : Nat) : Res :=
+  let j := wsNoComments y.ind s i
   if h : j + 1 < s.size then
     if s[j] == '/' then
-      if s[j + 1] == '/' then whitespace ind s (untilNewline s (j + 2))
+      if s[j + 1] == '/' then
+        if y == .css then .err .silentCommentInCss (.cur j)
+        else whitespace y s (untilNewline s (j + 2))
       else if s[j + 1] == '*' then
-        match hm : loudFor ind s (j + 2) with
-        | .ok k => whitespace ind s k
+        match hm : loudFor y.ind s (j + 2) with
+        | .ok k => whitespace y s k
         | .err e sp => .err e sp
         | .unsupported => .unsupported
       else .ok j
@@ -361,14 +382,1032 @@ def whitespace (ind : Bool) (s : Array Char) (i : Nat) : Res :=
   else .ok j
 termination_by s.size - i
 decreasing_by
-  · have := wsNoComments_ge ind s i
-    have := untilNewline_ge s (wsNoComments ind s i + 2)
+  · have := wsNoComments_ge y.ind s i
+    have := untilNewline_ge s (wsNoComments y.ind s i + 2)
     omega
-  · have := wsNoComments_ge ind s i
-    have := loudFor_adv ind s _ _ hm
+  · have := wsNoComments_ge y.ind s i
+    have := loudFor_adv y.ind s _ _ hm
     omega
 
+theorem whitespace_ge_aux (y : Syn) (s : Array Char) : ∀ (n i j : Nat), s.size - i < n →
+    whitespace y s i = .ok j → i ≤ j ∧ (i ≤ s.size → j ≤ s.size) := by
+  intro n
+  induction n with
+  | zero => intro i j hn; omega
+  | succ n ih =>
+    intro i j hn h
+    have a := wsNoComments_ge y.ind s i
+    have b := wsNoComments_le y.ind s i
+    unfold whitespace at h
+    dsimp only at h
+    split at h
+    · split at h
+      · split at h
+        · split at h
+          · cases h
+          · have c := untilNewline_ge s (wsNoComments y.ind s i + 2)
+            have c2 := untilNewline_le s (wsNoComments y.ind s i + 2) (by omega)
+            have := ih _ _ (by omega) h; omega
+        · split at h
+          · split at h
+            · rename_i k hm
+              have := loudFor_adv _ _ _ _ hm
+              have := ih _ _ (by omega) h; omega
+            · cases h
+            · cases h
+          · injection h with h; omega
+      · injection h with h; omega
+    · injection h with h; omega
+
+theorem whitespace_ge (y : Syn) (s : Array Char) (i j : Nat) (h : whitespace y s i = .ok j) :
+    i ≤ j ∧ (i ≤ s.size → j ≤ s.size) :=
+  whitespace_ge_aux y s (s.size - i + 1) i j (by omega) h
+
+/-! ## 8. Escapes (base.rs:212 `parse_escape`, base.rs:340 `consume_escaped_char`) -/
+
+/-- `for _ in 0..6 { peek hex? … next }`: at most `n` hex digits; returns (cursor, value). -/
+def hexRun (s : Array Char) : Nat → Nat → Nat → Nat × Nat
+  | 0, i, acc => (i, acc)
+  | n + 1, i, acc =>
+    if h : i < s.size then
+      if isHex s[i] then hexRun s n (i + 1) (acc * 16 + hexVal s[i]) else (i, acc)
+    else (i, acc)
+
+theorem hexRun_ge (s : Array Char) (n i acc : Nat) : i ≤ (hexRun s n i acc).1 := by
+  induction n generalizing i acc with
+  | zero => simp [hexRun]
+  | succ n ih =>
+    unfold hexRun
+    split
+    · split
+      · have := ih (i + 1) (acc * 16 + hexVal s[i]); omega
+      · simp
+    · simp
+
+theorem hexRun_le (s : Array Char) (n i acc : Nat) (hi : i ≤ s.size) : (hexRun s n i acc).1 ≤ s.size := by
+  induction n generalizing i acc with
+  | zero => simpa [hexRun] using hi
+  | succ n ih =>
+    unfold hexRun
+    split
+    · split
+      · exact ih (i + 1) _ (by omega)
+      · simpa using hi
+    · simpa using hi
+
+/-- optional single whitespace after a hex escape -/
+def skipOne (p : Char → Bool) (s : Array Char) (j : Nat) : Nat :=
+  if h : j < s.size then (if p s[j] then j + 1 else j) else j
+
+theorem skipOne_ge (p : Char → Bool) (s : Array Char) (j : Nat) : j ≤ skipOne p s j := by
+  unfold skipOne; split <;> (try split) <;> omega
+
+theorem skipOne_le (p : Char → Bool) (s : Array Char) (j : Nat) (hj : j ≤ s.size) : skipOne p s j ≤ s.size := by
+  unfold skipOne; split <;> (try split) <;> omega
+
+/-- Text `parse_escape` returns for code point `v` (base.rs:248-265). -/
+def escText (idStart : Bool) (v : Nat) : List Char :=
+  let c := Char.ofNat v
+  if (idStart && isNameStart c && !c.isDigit) || (!idStart && isName c) then [c]
+  else if v ≤ 0x1F || v == 0x7F || (idStart && c.isDigit) then
+    '\\' :: ((if v > 0xF then [hexCharFor (v / 16)] else []) ++ [hexCharFor (v % 16), ' '])
+  else ['\\', c]
+
+/-- `parse_escape(identifier_start)`, cursor on the backslash. -/
+def parseEscape (idStart : Bool) (s : Array Char) (i : Nat) : ResT :=
+  if h : i < s.size then
+    if s[i] != '\\' then .err (.expectedChar '\\') (.cur i)
+    else if h1 : i + 1 < s.size then
+      if s[i + 1] == '\n' then .err .expectedEscape (.cur (i + 1))
+      else if isHex s[i + 1] then
+        let r := hexRun s 6 (i + 1) 0
+        let j := skipOne (fun c => c == ' ' || c == '\n' || c == '\t') s r.1
+        if validScalar r.2 then .ok j (escText idStart r.2) else .err .invalidCodePoint (.range i j)
+      else .ok (i + 2) (escText idStart s[i + 1].toNat)
+    else .err .expectedExpression (.cur (i + 1))
+  else .err (.expectedChar '\\') (.cur i)
+
+theorem hexRun_adv (s : Array Char) (i acc : Nat) (h : i < s.size) (hx : isHex s[i] = true) :
+    i < (hexRun s 6 i acc).1 := by
+  unfold hexRun
+  simp only [h, ↓reduceDIte, hx, ↓reduceIte]
+  have := hexRun_ge s 5 (i + 1) (acc * 16 + hexVal s[i]); omega
+
+theorem parseEscape_adv (b : Bool) (s : Array Char) (i j : Nat) (t : List Char)
+    (h : parseEscape b s i = .ok j t) : i < j ∧ j ≤ s.size := by
+  unfold parseEscape at h
+  split at h
+  · split at h
+    · cases h
+    · split at h
+      · split at h
+        · cases h
+        · rename_i hlt _ hi1 _
+          split at h
+          · rename_i hx
+            dsimp only at h
+            split at h
+            · injection h with h1 h2
+              have a := hexRun_adv s (i + 1) 0 hi1 hx
+              have b := hexRun_le s 6 (i + 1) 0 (by omega)
+              have c := skipOne_ge (fun c => c == ' ' || c == '\n' || c == '\t') s (hexRun s 6 (i + 1) 0).1
+              have d := skipOne_le (fun c => c == ' ' || c == '\n' || c == '\t') s (hexRun s 6 (i + 1) 0).1 b
+              omega
+            · cases h
+          · injection h with h1 h2; omega
+      · cases h
+  · cases h
+
+/-- `consume_escaped_char`, cursor on the backslash; the text is the one character it yields. -/
+def consumeEscapedChar (s : Array Char) (i : Nat) : ResT :=
+  if h : i < s.size then
+    if s[i] != '\\' then .err (.expectedChar '\\') (.cur i)
+    else if h1 : i + 1 < s.size then
+      if s[i + 1] == '\n' || s[i + 1] == '\r' then .err .expectedEscape (.cur (i + 1))
+      else if isHex s[i + 1] then
+        let r := hexRun s 6 (i + 1) 0
+        let j := skipOne isAsciiWs s r.1
+        let v := r.2
+        .ok j [if v == 0 || (0xD800 ≤ v && v ≤ 0xDFFF) || v ≥ 0x10FFFF then Char.ofNat 0xFFFD else Char.ofNat v]
+      else .ok (i + 2) [s[i + 1]]
+    else .ok (i + 1) [Char.ofNat 0xFFFD]
+  else .err (.expectedChar '\\') (.cur i)
+
+theorem consumeEscapedChar_adv (s : Array Char) (i j : Nat) (t : List Char)
+    (h : consumeEscapedChar s i = .ok j t) : i < j ∧ j ≤ s.size := by
+  unfold consumeEscapedChar at h
+  split at h
+  · split at h
+    · cases h
+    · split at h
+      · split at h
+        · cases h
+        · rename_i hlt _ hi1 _
+          split at h
+          · rename_i hx
+            dsimp only at h
+            injection h with h1 h2
+            have a := hexRun_adv s (i + 1) 0 hi1 hx
+            have b := hexRun_le s 6 (i + 1) 0 (by omega)
+            have c := skipOne_ge isAsciiWs s (hexRun s 6 (i + 1) 0).1
+            have d := skipOne_le isAsciiWs s (hexRun s 6 (i + 1) 0).1 b
+            omega
+          · injection h with h1 h2; omega
+      · injection h with h1 h2; omega
+  · cases h
+
+/-! ## 9. Identifiers (base.rs:135 `parse_identifier`, base.rs:176 `parse_identifier_body`) -/
+
+def peekIs (s : Array Char) (i : Nat) (c : Char) : Bool :=
+  if h : i < s.size then s[i] == c else false
+
+def peekSat (s : Array Char) (i : Nat) (p : Char → Bool) : Bool :=
+  if h : i < s.size then p s[i] else false
+
+theorem peekIs_lt {s : Array Char} {i : Nat} {c : Char} (h : peekIs s i c = true) : i < s.size := by
+  unfold peekIs at h; split at h <;> simp_all
+
+theorem peekSat_lt {s : Array Char} {i : Nat} {p : Char → Bool} (h : peekSat s i p = true) : i < s.size := by
+  unfold peekSat at h; split at h <;> simp_all
+
+/-- `parse_identifier_body`; `acc` is the text so far, reversed. -/
+def identBody (norm unit : Bool) (s : Array Char) (i : Nat) (acc : List Char) : ResT :=
+  if h : i < s.size then
+    if unit && s[i] == '-' then
+      if h2 : i + 1 < s.size then
+        if s[i + 1] == '.' || isDigit s[i + 1] then .ok i acc.reverse
+        else identBody norm unit s (i + 1) ('-' :: acc)
+      else .ok i acc.reverse
+    else if norm && s[i] == '_' then identBody norm unit s (i + 1) ('-' :: acc)
+    else if isName s[i] then identBody norm unit s (i + 1) (s[i] :: acc)
+    else if s[i] == '\\' then
+      match hm : parseEscape false s i with
+      | .ok j t => identBody norm unit s j (t.reverse ++ acc)
+      | .err e sp => .err e sp
+      | .unsupported => .unsupported
+    else .ok i acc.reverse
+  else .ok i acc.reverse
+termination_by s.size - i
+decreasing_by
+  all_goals (try omega)
+  have := parseEscape_adv false s i _ _ hm; omega
+
+theorem identBody_ge (n u : Bool) (s : Array Char) (i : Nat) (acc : List Char) (j : Nat) (t : List Char)
+    (h : identBody n u s i acc = .ok j t) : i ≤ j ∧ (i ≤ s.size → j ≤ s.size) := by
+  fun_induction identBody n u s i acc
+  all_goals (try (simp at h))
+  all_goals (try (have := h.1; omega))
+  all_goals (try (rename_i ih; have := ih h; omega))
+  all_goals (rename_i hm ih; have := parseEscape_adv false s _ _ _ hm; have := ih h; omega)
+
+/-- `parse_identifier(normalize, unit)`. -/
+def parseIdentifier (norm unit : Bool) (s : Array Char) (i : Nat) : ResT :=
+  let (a, pre) : Nat × List Char := if peekIs s i '-' then (i + 1, ['-']) else (i, [])
+  if a ≠ i ∧ peekIs s a '-' then identBody norm unit s (a + 1) ('-' :: pre)
+  else if h : a < s.size then
+    if norm && s[a] == '_' then identBody norm unit s (a + 1) ('-' :: pre)
+    else if isNameStart s[a] then identBody norm unit s (a + 1) (s[a] :: pre)
+    else if s[a] == '\\' then
+      match parseEscape true s a with
+      | .ok j t => identBody norm unit s j (t.reverse ++ pre)
+      | .err e sp => .err e sp
+      | .unsupported => .unsupported
+    else .err .expectedIdentifier (.cur a)
+  else .err .expectedIdentifier (.cur a)
+
+theorem parseIdentifier_adv (n u : Bool) (s : Array Char) (i j : Nat) (t : List Char)
+    (h : parseIdentifier n u s i = .ok j t) : i < j ∧ j ≤ s.size := by
+  unfold parseIdentifier at h
+  by_cases hp : peekIs s i '-' = true
+  · have hlt := peekIs_lt hp
+    simp only [hp, ↓reduceIte] at h
+    split at h
+    · rename_i h2
+      have := peekIs_lt h2.2
+      have := identBody_ge _ _ _ _ _ _ _ h; omega
+    · split at h
+      · split at h
+        · have := identBody_ge _ _ _ _ _ _ _ h; omega
+        · split at h
+          · have := identBody_ge _ _ _ _ _ _ _ h; omega
+          · split at h
+            · split at h
+              · rename_i hm
+                have := parseEscape_adv _ _ _ _ _ hm
+                have := identBody_ge _ _ _ _ _ _ _ h; omega
+              · cases h
+              · cases h
+            · cases h
+      · cases h
+  · simp only [hp, Bool.false_eq_true, ↓reduceIte] at h
+    split at h
+    · rename_i h2; exact absurd rfl h2.1
+    · split at h
+      · split at h
+        · have := identBody_ge _ _ _ _ _ _ _ h; omega
+        · split at h
+          · have := identBody_ge _ _ _ _ _ _ _ h; omega
+          · split at h
+            · split at h
+              · rename_i hm
+                have := parseEscape_adv _ _ _ _ _ hm
+                have := identBody_ge _ _ _ _ _ _ _ h; omega
+              · cases h
+              · cases h
+            · cases h
+      · cases h
+
+/-- `looking_at_identifier` (base.rs:507). -/
+def lookingAtIdentifier (s : Array Char) (i : Nat) : Bool :=
+  if h : i < s.size then
+    if isNameStart s[i] || s[i] == '\\' then true
+    else if s[i] == '-' then peekSat s (i + 1) (fun c => isNameStart c || c == '-' || c == '\\')
+    else false
+  else false
+
+
+/-! ## 10. Quoted strings (base.rs:290 `parse_string`; stylesheet.rs:1010 `parse_interpolated_string`) -/
+
+def isNewlineTok (c : Char) : Bool := c == '\n' || c == '\r'
+
+/-- body of `parse_string` after the opening quote `q`. -/
+def stringBody (q : Char) (s : Array Char) (i : Nat) : Res :=
+  if h : i < s.size then
+    if s[i] == q then .ok (i + 1)
+    else if isNewlineTok s[i] then .err (.expectedQuote q) (.cur i)
+    else if s[i] == '\\' then
+      if hn : peekSat s (i + 1) isNewlineTok then stringBody q s (i + 2)
+      else
+        match hm : consumeEscapedChar s i with
+        | .ok j _ => stringBody q s j
+        | .err e sp => .err e sp
+        | .unsupported => .unsupported
+    else stringBody q s (i + 1)
+  else .err (.expectedQuote q) (.cur i)
+termination_by s.size - i
+decreasing_by
+  · have := peekSat_lt hn; omega
+  · have := consumeEscapedChar_adv s i _ _ hm; omega
+  · omega
+
+theorem stringBody_adv (q : Char) (s : Array Char) (i j : Nat) (h : stringBody q s i = .ok j) :
+    i < j ∧ j ≤ s.size := by
+  fun_induction stringBody q s i
+  all_goals (try (simp at h))
+  all_goals (try omega)
+  all_goals (try (rename_i ih; have := ih h; omega))
+  all_goals (rename_i hm ih; have := consumeEscapedChar_adv s _ _ _ hm; have := ih h; omega)
+
+/-- `parse_string`: cursor on the opening quote. -/
+def parseString (s : Array Char) (i : Nat) : Res :=
+  if h : i < s.size then
+    if s[i] == '"' || s[i] == '\'' then stringBody s[i] s (i + 1) else .err .expectedString (.cur (i + 1))
+  else .err .expectedString (.cur i)
+
+theorem parseString_adv (s : Array Char) (i j : Nat) (h : parseString s i = .ok j) : i < j ∧ j ≤ s.size := by
+  unfold parseString at h
+  split at h
+  · split at h
+    · have := stringBody_adv _ _ _ _ h; omega
+    · cases h
+  · cases h
+
+/-- body of `parse_interpolated_string` after the opening quote; `#{` is above the scanner layer. -/
+def istringBody (q : Char) (s : Array Char) (i : Nat) : Res :=
+  if h : i < s.size then
+    if s[i] == q then .ok (i + 1)
+    else if s[i] == '\n' then .err (.expectedQuote q) (.cur i)
+    else if s[i] == '\\' then
+      if hn : peekIs s (i + 1) '\n' then istringBody q s (i + 2)
+      else
+        match hm : consumeEscapedChar s i with
+        | .ok j _ => istringBody q s j
+        | .err e sp => .err e sp
+        | .unsupported => .unsupported
+    else if s[i] == '#' && peekIs s (i + 1) '{' then .unsupported
+    else istringBody q s (i + 1)
+  else .err (.expectedQuote q) (.cur i)
+termination_by s.size - i
+decreasing_by
+  · have := peekIs_lt hn; omega
+  · have := consumeEscapedChar_adv s i _ _ hm; omega
+  · omega
+
+theorem istringBody_adv (q : Char) (s : Array Char) (i j : Nat) (h : istringBody q s i = .ok j) :
+    i < j ∧ j ≤ s.size := by
+  fun_induction istringBody q s i
+  all_goals (try (simp at h))
+  all_goals (try omega)
+  all_goals (try (rename_i ih; have := ih h; omega))
+  all_goals (rename_i hm ih; have := consumeEscapedChar_adv s _ _ _ hm; have := ih h; omega)
+
+def parseIString (s : Array Char) (i : Nat) : Res :=
+  if h : i < s.size then
+    if s[i] == '"' || s[i] == '\'' then istringBody s[i] s (i + 1) else .err .expectedString (.cur (i + 1))
+  else .err .expectedString (.cur i)
+
+theorem parseIString_adv (s : Array Char) (i j : Nat) (h : parseIString s i = .ok j) : i < j ∧ j ≤ s.size := by
+  unfold parseIString at h
+  split at h
+  · split at h
+    · have := istringBody_adv _ _ _ _ h; omega
+    · cases h
+  · cases h
+
+/-! ## 11. Number literal (value.rs:980 `parse_number`, 956 `consume_natural_number`,
+       1016 `try_decimal`, 1049 `try_exponent`) -/
+
+def tryDecimal (allowTrailing : Bool) (s : Array Char) (i : Nat) : Res :=
+  if h : i < s.size then
+    if s[i] != '.' then .ok i
+    else if h1 : i + 1 < s.size then
+      if !isDigit s[i + 1] then (if allowTrailing then .ok i else .err .expectedDigit (.cur i))
+      else .ok (skipDigits s (i + 1))
+    else .err .expectedDigit (.cur i)
+  else .ok i
+
+def tryExponent (s : Array Char) (i : Nat) : Res :=
+  if h : i < s.size then
+    if s[i] == 'e' || s[i] == 'E' then
+      if h1 : i + 1 < s.size then
+        if isDigit s[i + 1] then .ok (skipDigits s (i + 1))
+        else if s[i + 1] == '+' || s[i + 1] == '-' then
+          if peekSat s (i + 2) isDigit then .ok (skipDigits s (i + 2))
+          else .err .expectedDigit (.cur (i + 2))
+        else .ok i
+      else .ok i
+    else .ok i
+  else .ok i
+
+/-- cursor after an optional sign -/
+def afterSign (s : Array Char) (i : Nat) : Nat :=
+  if h : i < s.size then (if s[i] == '+' || s[i] == '-' then i + 1 else i) else i
+
+/-- integer part: nothing if the next token is `.`, else `consume_natural_number`
+    (whose `next()` consumes the offending token before reporting it at `prev_span`). -/
+def naturalPart (s : Array Char) (a : Nat) : Res :=
+  if h : a < s.size then
+    if s[a] == '.' then .ok a
+    else if isDigit s[a] then .ok (skipDigits s (a + 1))
+    else .err .expectedDigit (.prev (a + 1))
+  else .err .expectedDigit (.prev a)
+
+/-- the literal without its unit: `[+-]? digits? (. digits)? (e [+-]? digits)?` -/
+def numberLit (s : Array Char) (i : Nat) : Res :=
+  let a := afterSign s i
+  match naturalPart s a with
+  | .ok b =>
+    match tryDecimal (b != a) s b with
+    | .ok c => tryExponent s c
+    | r => r
+  | r => r
+
+/-- the unit: `%`, or an identifier (`unit = true`) unless it starts with `--`. -/
+def numberUnit (s : Array Char) (j : Nat) : Res :=
+  if peekIs s j '%' then .ok (j + 1)
+  else if lookingAtIdentifier s j && !(peekIs s j '-' && peekIs s (j + 1) '-') then
+    (parseIdentifier false true s j).toRes
+  else .ok j
+
+def parseNumber (s : Array Char) (i : Nat) : Res :=
+  match numberLit s i with
+  | .ok j => numberUnit s j
+  | r => r
+
+/-! ## 12. `url(` contents -/
+
+inductive UrlRes where
+  | url (j : Nat)                    -- `Some(..)`: a plain url, cursor after `)`
+  | notUrl                           -- `None`: cursor reset by the caller
+  | err (e : ErrClass) (sp : SpanRef)
+  | unsupported
+  deriving DecidableEq, Repr, Inhabited
+
+def isUrlChar (c : Char) : Bool :=
+  c == '!' || c == '%' || c == '&' || ('*'.toNat ≤ c.toNat && c.toNat ≤ '~'.toNat) || c.toNat ≥ 0x80
+
+def isUrlWs (c : Char) : Bool := c == ' ' || c == '\t' || c == '\n' || c == '\r'
+
+/-- loop of `try_url_contents` (stylesheet.rs:810); `hashPlain = true` is the `BaseParser::try_parse_url`
+    variant (base.rs:538) where `#` is an ordinary url character. -/
+def urlBody (ind hashPlain : Bool) (s : Array Char) (i : Nat) : UrlRes :=
+  if h : i < s.size then
+    if s[i] == '\\' then
+      match hm : parseEscape false s i with
+      | .ok j _ => urlBody ind hashPlain s j
+      | .err e sp => .err e sp
+      | .unsupported => .unsupported
+    else if s[i] == '#' then
+      if !hashPlain && peekIs s (i + 1) '{' then .unsupported else urlBody ind hashPlain s (i + 1)
+    else if isUrlChar s[i] then urlBody ind hashPlain s (i + 1)
+    else if s[i] == ')' then .url (i + 1)
+    else if isUrlWs s[i] then
+      let j := wsNoComments ind s i
+      if peekIs s j ')' then .url (j + 1) else .notUrl
+    else .notUrl
+  else .notUrl
+termination_by s.size - i
+decreasing_by
+  all_goals (try omega)
+  have := parseEscape_adv false s i _ _ hm; omega
+
+theorem urlBody_adv (ind hp : Bool) (s : Array Char) (i j : Nat) (h : urlBody ind hp s i = .url j) :
+    i < j ∧ j ≤ s.size := by
+  fun_induction urlBody ind hp s i
+  all_goals (try (simp at h))
+  all_goals (try omega)
+  all_goals (try (rename_i ih; have := ih h; omega))
+  all_goals (try (rename_i hm ih; have := parseEscape_adv false s _ _ _ hm; have := ih h; omega))
+  all_goals
+    rename_i x _ _ _ _ _ _ jj hk
+    have h1 := peekIs_lt hk
+    have h2 : x ≤ jj := wsNoComments_ge ind s x
+    omega
+
+/-- `scan_ident_char(c, case_sensitive = false)` for a lower-case ASCII `c` (base.rs:615):
+    `some j` matched, `none` no match (cursor unchanged). -/
+def scanIdentChar (c : Char) (s : Array Char) (i : Nat) : Except (ErrClass × SpanRef) (Option Nat) :=
+  if h : i < s.size then
+    if s[i].toLower == c then .ok (some (i + 1))
+    else if s[i] == '\\' then
+      match consumeEscapedChar s i with
+      | .ok j [d] => if d.toLower == c then .ok (some j) else .ok none
+      | .ok _ _ => .ok none
+      | .err e sp => .error (e, sp)
+      | .unsupported => .ok none
+    else .ok none
+  else .ok none
+
+/-- `scan_identifier("url", false)` (base.rs:585): cursor after `url`, or `none`. -/
+def scanUrlIdent (s : Array Char) (i : Nat) : Except (ErrClass × SpanRef) (Option Nat) :=
+  if !lookingAtIdentifier s i then .ok none else
+  match scanIdentChar 'u' s i with
+  | .error e => .error e
+  | .ok none => .ok none
+  | .ok (some a) =>
+    match scanIdentChar 'r' s a with
+    | .error e => .error e
+    | .ok none => .ok none
+    | .ok (some b) =>
+      match scanIdentChar 'l' s b with
+      | .error e => .error e
+      | .ok none => .ok none
+      | .ok (some c) =>
+        if peekSat s c (fun x => isName x || x == '\\') then .ok none else .ok (some c)
+
+theorem scanIdentChar_adv (c : Char) (s : Array Char) (i j : Nat)
+    (h : scanIdentChar c s i = .ok (some j)) : i < j ∧ j ≤ s.size := by
+  unfold scanIdentChar at h
+  split at h
+  · split at h
+    · injection h with h; injection h with h; omega
+    · split at h
+      · split at h
+        · rename_i hm
+          have := consumeEscapedChar_adv s i _ _ hm
+          split at h
+          · injection h with h; injection h with h; omega
+          · cases h
+        all_goals cases h
+      · cases h
+  · cases h
+
+theorem scanUrlIdent_adv (s : Array Char) (i j : Nat) (h : scanUrlIdent s i = .ok (some j)) :
+    i < j ∧ j ≤ s.size := by
+  unfold scanUrlIdent at h
+  split at h
+  · cases h
+  · split at h
+    · cases h
+    · cases h
+    · rename_i a ha
+      have := scanIdentChar_adv _ _ _ _ ha
+      split at h
+      · cases h
+      · cases h
+      · rename_i b hb
+        have := scanIdentChar_adv _ _ _ _ hb
+        split at h
+        · cases h
+        · cases h
+        · rename_i c hc
+          have := scanIdentChar_adv _ _ _ _ hc
+          split at h
+          · cases h
+          · injection h with h; injection h with h; omega
+
+/-- `BaseParser::try_parse_url` (base.rs:520) at a `u`/`U` token: `url`, `(`, `whitespace()` with
+    comments, then the contents with `#` an ordinary character.  Only the selector and media-query
+    parsers reach it (through `declaration_value`), so comments are the SCSS ones. -/
+def tryUrlBase (s : Array Char) (i : Nat) : UrlRes :=
+  match scanUrlIdent s i with
+  | .error (e, sp) => .err e sp
+  | .ok none => .notUrl
+  | .ok (some a) =>
+    if peekIs s a '(' then
+      match whitespace .scss s (a + 1) with
+      | .ok b => urlBody false true s b
+      | .err e sp => .err e sp
+      | .unsupported => .unsupported
+    else .notUrl
+
+/-- The stylesheet parsers' `scan_identifier("url")` + `try_url_contents` (stylesheet.rs:797):
+    `whitespace_without_comments` after the paren, `#{` is interpolation. -/
+def tryUrlSheet (ind : Bool) (s : Array Char) (i : Nat) : UrlRes :=
+  match scanUrlIdent s i with
+  | .error (e, sp) => .err e sp
+  | .ok none => .notUrl
+  | .ok (some a) =>
+    if peekIs s a '(' then urlBody ind false s (wsNoComments ind s (a + 1))
+    else .notUrl
+
+theorem tryUrlBase_adv (s : Array Char) (i j : Nat) (h : tryUrlBase s i = .url j) : i < j ∧ j ≤ s.size := by
+  unfold tryUrlBase at h
+  split at h
+  · cases h
+  · cases h
+  · rename_i a ha
+    have := scanUrlIdent_adv _ _ _ ha
+    split at h
+    · split at h
+      · rename_i b hb
+        have := whitespace_ge _ _ _ _ hb
+        have := urlBody_adv _ _ _ _ _ h
+        omega
+      · cases h
+      · cases h
+    · cases h
+
+theorem tryUrlSheet_adv (ind : Bool) (s : Array Char) (i j : Nat) (h : tryUrlSheet ind s i = .url j) :
+    i < j ∧ j ≤ s.size := by
+  unfold tryUrlSheet at h
+  split at h
+  · cases h
+  · cases h
+  · rename_i a ha
+    have := scanUrlIdent_adv _ _ _ ha
+    split at h
+    · have := wsNoComments_ge ind s (a + 1)
+      have := urlBody_adv _ _ _ _ _ h
+      omega
+    · cases h
+
+/-! ## 13. `declaration_value` (base.rs:381): the bracket stack -/
+
+def opens (c : Char) : Bool := c == '[' || c == '(' || c == '{'
+def closes (c : Char) : Bool := c == ']' || c == ')' || c == '}'
+/-- `opposite_bracket` on an opening bracket -/
+def opposite (c : Char) : Char := if c == '(' then ')' else if c == '[' then ']' else '}'
+
+/-- loop of `BaseParser::declaration_value`; `br` is the stack of expected closers. -/
+def declValue (s : Array Char) (i : Nat) (br : List Char) : Res :=
+  if h : i < s.size then
+    if s[i] == '\\' then
+      match hm : parseEscape true s i with
+      | .ok j _ => declValue s j br
+      | .err e sp => .err e sp
+      | .unsupported => .unsupported
+    else if s[i] == '"' || s[i] == '\'' then
+      match hm : parseString s i with
+      | .ok j => declValue s j br
+      | .err e sp => .err e sp
+      | .unsupported => .unsupported
+    else if s[i] == '/' then
+      if peekIs s (i + 1) '*' then
+        match hm : loudBody s (i + 2) with
+        | .ok j => declValue s j br
+        | .err e sp => .err e sp
+        | .unsupported => .unsupported
+      else declValue s (i + 1) br
+    else if s[i] == '#' then
+      if peekIs s (i + 1) '{' then
+        -- `parse_identifier` on `#`: always "Expected identifier." (kept as the call the code makes)
+        match hm : parseIdentifier false false s i with
+        | .ok j _ => declValue s j br
+        | .err e sp => .err e sp
+        | .unsupported => .unsupported
+      else declValue s (i + 1) br
+    else if s[i] == ' ' || s[i] == '\t' || s[i] == '\n' || s[i] == '\r' then declValue s (i + 1) br
+    else if opens s[i] then declValue s (i + 1) (opposite s[i] :: br)
+    else if closes s[i] then
+      match br with
+      | [] => .ok i
+      | e :: br' => if s[i] == e then declValue s (i + 1) br' else .err (.expectedChar e) (.cur i)
+    else if s[i] == ';' then
+      if br.isEmpty then .ok i else declValue s (i + 1) br
+    else if s[i] == 'u' || s[i] == 'U' then
+      match hm : tryUrlBase s i with
+      | .url j => declValue s j br
+      | .notUrl => declValue s (i + 1) br
+      | .err e sp => .err e sp
+      | .unsupported => .unsupported
+    else if lookingAtIdentifier s i then
+      match hm : parseIdentifier false false s i with
+      | .ok j _ => declValue s j br
+      | .err e sp => .err e sp
+      | .unsupported => .unsupported
+    else declValue s (i + 1) br
+  else
+    match br with
+    | [] => .ok i
+    | e :: _ => .err (.expectedChar e) (.cur i)
+termination_by s.size - i
+decreasing_by
+  all_goals (try omega)
+  · have := parseEscape_adv true s i _ _ hm; omega
+  · have := parseString_adv s i _ hm; omega
+  · have := loudBody_adv s (i + 2) _ hm; omega
+  · have := parseIdentifier_adv false false s i _ _ hm; omega
+  · have := tryUrlBase_adv s i _ hm; omega
+  · have := parseIdentifier_adv false false s i _ _ hm; omega
+
+/-- `declaration_value(allow_empty)`. -/
+def declarationValue (allowEmpty : Bool) (s : Array Char) (i : Nat) : Res :=
+  match declValue s i [] with
+  | .ok j => if !allowEmpty && j == i then .err .expectedToken (.cur j) else .ok j
+  | r => r
+
+/-! ## 14. The stylesheet parsers' interpolating variants (without `#{`) -/
+
+/-- `parse_interpolated_identifier_body` (stylesheet.rs:1940). -/
+def iidentBody (s : Array Char) (i : Nat) : Res :=
+  if h : i < s.size then
+    if isName s[i] then iidentBody s (i + 1)
+    else if s[i] == '\\' then
+      match hm : parseEscape false s i with
+      | .ok j _ => iidentBody s j
+      | .err e sp => .err e sp
+      | .unsupported => .unsupported
+    else if s[i] == '#' && peekIs s (i + 1) '{' then .unsupported
+    else .ok i
+  else .ok i
+termination_by s.size - i
+decreasing_by
+  · omega
+  · have := parseEscape_adv false s i _ _ hm; omega
+
+theorem iidentBody_ge (s : Array Char) (i j : Nat) (h : iidentBody s i = .ok j) :
+    i ≤ j ∧ (i ≤ s.size → j ≤ s.size) := by
+  fun_induction iidentBody s i
+  all_goals (try (simp at h))
+  all_goals (try omega)
+  all_goals (try (rename_i ih; have := ih h; omega))
+  all_goals (rename_i hm ih; have := parseEscape_adv false s _ _ _ hm; have := ih h; omega)
+
+/-- `parse_interpolated_identifier` (stylesheet.rs:1960). -/
+def parseIIdent (s : Array Char) (i : Nat) : Res :=
+  let a := if peekIs s i '-' then i + 1 else i
+  if a ≠ i ∧ peekIs s a '-' then iidentBody s (a + 1)
+  else if h : a < s.size then
+    if isNameStart s[a] then iidentBody s (a + 1)
+    else if s[a] == '\\' then
+      match parseEscape true s a with
+      | .ok j _ => iidentBody s j
+      | .err e sp => .err e sp
+      | .unsupported => .unsupported
+    else if s[a] == '#' && peekIs s (a + 1) '{' then .unsupported
+    else .err .expectedIdentifier (.cur a)
+  else .err .expectedIdentifier (.cur a)
+
+/-- loop of `parse_interpolated_declaration_value` (stylesheet.rs:2070). -/
+def ideclValue (ind allowSemi allowColon : Bool) (s : Array Char) (i : Nat) (br : List Char) : Res :=
+  if h : i < s.size then
+    if s[i] == '\\' then
+      match hm : parseEscape true s i with
+      | .ok j _ => ideclValue ind allowSemi allowColon s j br
+      | .err e sp => .err e sp
+      | .unsupported => .unsupported
+    else if s[i] == '"' || s[i] == '\'' then
+      match hm : parseIString s i with
+      | .ok j => ideclValue ind allowSemi allowColon s j br
+      | .err e sp => .err e sp
+      | .unsupported => .unsupported
+    else if s[i] == '/' then
+      if peekIs s (i + 1) '*' then
+        match hm : loudFor ind s (i + 2) with
+        | .ok j => ideclValue ind allowSemi allowColon s j br
+        | .err e sp => .err e sp
+        | .unsupported => .unsupported
+      else ideclValue ind allowSemi allowColon s (i + 1) br
+    else if s[i] == '#' then
+      if peekIs s (i + 1) '{' then .unsupported else ideclValue ind allowSemi allowColon s (i + 1) br
+    else if s[i] == ' ' || s[i] == '\t' then ideclValue ind allowSemi allowColon s (i + 1) br
+    else if s[i] == '\n' || s[i] == '\r' then
+      if ind then
+        match br with
+        | [] => .ok i
+        | e :: _ => .err (.expectedChar e) (.cur i)
+      else ideclValue ind allowSemi allowColon s (i + 1) br
+    else if opens s[i] then ideclValue ind allowSemi allowColon s (i + 1) (opposite s[i] :: br)
+    else if closes s[i] then
+      match br with
+      | [] => .ok i
+      | e :: br' =>
+        if s[i] == e then ideclValue ind allowSemi allowColon s (i + 1) br' else .err (.expectedChar e) (.cur i)
+    else if s[i] == ';' then
+      if !allowSemi && br.isEmpty then .ok i else ideclValue ind allowSemi allowColon s (i + 1) br
+    else if s[i] == ':' then
+      if !allowColon && br.isEmpty then .ok i else ideclValue ind allowSemi allowColon s (i + 1) br
+    else if s[i] == 'u' || s[i] == 'U' then
+      match hm : tryUrlSheet ind s i with
+      | .url j => ideclValue ind allowSemi allowColon s j br
+      | .notUrl => ideclValue ind allowSemi allowColon s (i + 1) br
+      | .err e sp => .err e sp
+      | .unsupported => .unsupported
+    else if lookingAtIdentifier s i then
+      match hm : parseIdentifier false false s i with
+      | .ok j _ => ideclValue ind allowSemi allowColon s j br
+      | .err e sp => .err e sp
+      | .unsupported => .unsupported
+    else ideclValue ind allowSemi allowColon s (i + 1) br
+  else
+    match br with
+    | [] => .ok i
+    | e :: _ => .err (.expectedChar e) (.cur i)
+termination_by s.size - i
+decreasing_by
+  all_goals (try omega)
+  · have := parseEscape_adv true s i _ _ hm; omega
+  · have := parseIString_adv s i _ hm; omega
+  · have := loudFor_adv ind s (i + 2) _ hm; omega
+  · have := tryUrlSheet_adv ind s i _ hm; omega
+  · have := parseIdentifier_adv false false s i _ _ hm; omega
+
+def interpolatedDeclarationValue (ind allowSemi allowEmpty allowColon : Bool) (s : Array Char) (i : Nat) : Res :=
+  match ideclValue ind allowSemi allowColon s i [] with
+  | .ok j => if !allowEmpty && j == i then .err .expectedToken (.cur j) else .ok j
+  | r => r
+
+/-- `almost_any_value` (stylesheet.rs:2740). -/
+def almostAny (y : Syn) (s : Array Char) (i : Nat) : Res :=
+  if h : i < s.size then
+    if s[i] == '\\' then
+      if i + 1 < s.size then almostAny y s (i + 2) else .err .expectedMoreInput (.cur (i + 1))
+    else if s[i] == '"' || s[i] == '\'' then
+      match hm : parseIString s i with
+      | .ok j => almostAny y s j
+      | .err e sp => .err e sp
+      | .unsupported => .unsupported
+    else if s[i] == '/' then
+      if peekIs s (i + 1) '/' then
+        if y == .css then .err .silentCommentInCss (.cur i) else almostAny y s (untilNewline s (i + 2))
+      else if peekIs s (i + 1) '*' then
+        match hm : loudFor y.ind s (i + 2) with
+        | .ok j => almostAny y s j
+        | .err e sp => .err e sp
+        | .unsupported => .unsupported
+      else almostAny y s (i + 1)
+    else if s[i] == '#' then
+      if peekIs s (i + 1) '{' then .unsupported else almostAny y s (i + 1)
+    else if s[i] == '\r' || s[i] == '\n' then
+      if y.ind then .ok i else almostAny y s (i + 1)
+    else if s[i] == '!' || s[i] == ';' || s[i] == '{' || s[i] == '}' then .ok i
+    else if s[i] == 'u' || s[i] == 'U' then
+      match hm : tryUrlSheet y.ind s i with
+      | .url j => almostAny y s j
+      | .notUrl => almostAny y s (i + 1)
+      | .err e sp => .err e sp
+      | .unsupported => .unsupported
+    else if lookingAtIdentifier s i then
+      match hm : parseIdentifier false false s i with
+      | .ok j _ => almostAny y s j
+      | .err e sp => .err e sp
+      | .unsupported => .unsupported
+    else almostAny y s (i + 1)
+  else .ok i
+termination_by s.size - i
+decreasing_by
+  all_goals (try omega)
+  · have := parseIString_adv s i _ hm; omega
+  · have := untilNewline_ge s (i + 2); omega
+  · have := loudFor_adv y.ind s (i + 2) _ hm; omega
+  · have := tryUrlSheet_adv y.ind s i _ hm; omega
+  · have := parseIdentifier_adv false false s i _ _ hm; omega
+
+/-! ## 15. Conversion guard (value/number.rs:157 `Number::convert`, value/calculation.rs:185 `clamp`)
+
+  Self-contained abstraction (the unit table itself is C08's): a unit is unitless, a member of a
+  convertible family (`kind`), or an opaque unit.  `UNIT_CONVERSION_TABLE[to][from]` has an entry
+  exactly for two members of one family; indexing a missing key panics (`none` here). -/
+
+inductive U where
+  | none
+  | conv (kind idx : Nat)
+  | other (id : Nat)
+  deriving DecidableEq, Repr, Inhabited
+
+/-- `Unit::comparable` (unit/mod.rs:166). -/
+def comparable (u v : U) : Bool :=
+  match v with
+  | .none => true
+  | _ =>
+    match u with
+    | .none => true
+    | .conv k _ => (match v with | .conv k' _ => k == k' | _ => false)
+    | .other _ => u == v
+
+/-- `SassNumber::has_compatible_units` (value/sass_number.rs:47). -/
+def compatible (u v : U) : Bool :=
+  if (u == .none || v == .none) && u != v then false else comparable u v
+
+/-- `Number::convert`: `some` = returns, `none` = the table index panics. -/
+def convert? (frm to : U) : Option Unit :=
+  if frm == .none || to == .none || frm == to then some ()
+  else
+    match frm, to with
+    | .conv k _, .conv k' _ => if k == k' then some () else none
+    | _, _ => none
+
+/-- The two conversions `clamp(min, value, max)` performs once its guard passed
+    (calculation.rs:195-203); `asFound = true` is the guard of the pinned tree (`is_comparable_to`),
+    `false` the present one (`has_compatible_units`).  `none` = panic. -/
+def clampConversions (asFound : Bool) (mn v mx : U) : Option Unit :=
+  let g := if asFound then comparable mn v && comparable mn mx else compatible mn v && compatible mn mx
+  if g then (convert? mn v).bind (fun _ => convert? mx v) else some ()
+
+/-! ## 16. Per-input predicates used by the theorems and, through the driver, on grass's output -/
+
+/-- P̂ of the lexer part of C18 on one text: with its newlines written in style `k`, the text
+    lexes to the same kinds; positions are equal (one-byte styles) or shifted (CRLF). -/
+def nlInvariantAt (k : NL) (s : List Char) : Bool :=
+  let n := normNL s
+  let a := lex (substNewlines k n)
+  let b := lex n
+  kinds a == kinds b && (if k == .crlf then a == shiftFrom 0 b else a == b)
+
+/-- P̂ for error values (C01, shared with C19): the span `[lo, hi)` lies inside the file and both
+    ends are character boundaries of the source. -/
+def spanInFile (src : List Char) (lo hi : Nat) : Bool :=
+  lo ≤ hi && hi ≤ byteLen src && (boundaries 0 src).contains lo && (boundaries 0 src).contains hi
+
+/-! ## 17. Driver entry points -/
+open Grass.Proto
+
+def errName : ErrClass → String
+  | .expectedMoreInput => "more-input"
+  | .expectedCommentEnd => "comment-end"
+  | .expectedDigit => "digit"
+  | .expectedIdentifier => "identifier"
+  | .expectedEscape => "escape"
+  | .expectedExpression => "expression"
+  | .invalidCodePoint => "code-point"
+  | .expectedQuote q => s!"quote-{q.toNat}"
+  | .expectedChar c => s!"char-{c.toNat}"
+  | .expectedToken => "token"
+  | .expectedString => "string"
+  | .silentCommentInCss => "silent-css"
+
+def synOfStr (t : String) : Option Syn :=
+  if t == "scss" then some .scss else if t == "sass" then some .sass else if t == "css" then some .css else none
+
+def nlOfStr (t : String) : Option NL :=
+  if t == "lf" then some .lf else if t == "crlf" then some .crlf else if t == "cr" then some .cr
+  else if t == "ff" then some .ff else none
+
+def resStr (ts : Array Tok) (start nsub : Nat) : Res → String
+  | .ok j => s!"ok {j - start} {nsub}"
+  | .err e sp => let (lo, hi) := spanBytes ts sp; s!"err {errName e} {lo} {hi} {nsub}"
+  | .unsupported => "unsupported"
+
+def urlResStr (ts : Array Tok) (start nsub : Nat) : UrlRes → String
+  | .url j => s!"ok {j - start} {nsub}"
+  | .notUrl => s!"noturl {nsub}"
+  | .err e sp => let (lo, hi) := spanBytes ts sp; s!"err {errName e} {lo} {hi} {nsub}"
+  | .unsupported => "unsupported"
+
+def resTStr (ts : Array Tok) (start nsub : Nat) : ResT → String
+  | .ok j t => s!"ok {j - start} {nsub} {hexEncode (String.ofList t)}"
+  | .err e sp => let (lo, hi) := spanBytes ts sp; s!"err {errName e} {lo} {hi} {nsub}"
+  | .unsupported => "unsupported"
+
+/-- `scan <scanner> <syntax> <prefix> <subject> <suffix>` (hex texts): lex the whole text, run the
+    scanner at the first token of the subject. -/
+def scanOp (name : String) (y : Syn) (pre sub suf : List Char) : String :=
+  let ts := (lex (pre ++ sub ++ suf)).toArray
+  let s := ts.map (·.kind)
+  let start := (lex pre).length
+  let nsub := (lex (pre ++ sub)).length - start
+  if name == "ws" then resStr ts start nsub (whitespace y s start)
+  else if name == "wsnc" then resStr ts start nsub (.ok (wsNoComments y.ind s start))
+  else if name == "loud" then
+    (if peekIs s start '/' && peekIs s (start + 1) '*' then resStr ts start nsub (loudFor y.ind s (start + 2)) else "unsupported")
+  else if name == "string" then resStr ts start nsub (parseString s start)
+  else if name == "istring" then resStr ts start nsub (parseIString s start)
+  else if name == "ident" then resTStr ts start nsub (parseIdentifier false false s start)
+  else if name == "identn" then resTStr ts start nsub (parseIdentifier true false s start)
+  else if name == "identu" then resTStr ts start nsub (parseIdentifier false true s start)
+  else if name == "iident" then resStr ts start nsub (parseIIdent s start)
+  else if name == "escape1" then resTStr ts start nsub (parseEscape true s start)
+  else if name == "escape0" then resTStr ts start nsub (parseEscape false s start)
+  else if name == "number" then resStr ts start nsub (parseNumber s start)
+  else if name == "declvalue" then resStr ts start nsub (declarationValue true s start)
+  else if name == "declvalue0" then resStr ts start nsub (declarationValue false s start)
+  else if name == "cpv" then resStr ts start nsub (interpolatedDeclarationValue y.ind false false true s start)
+  else if name == "almostany" then resStr ts start nsub (almostAny y s start)
+  else if name == "urlsheet" then urlResStr ts start nsub (tryUrlSheet y.ind s start)
+  else if name == "urlbase" then urlResStr ts start nsub (tryUrlBase s start)
+  else "bad-op"
+
+def unitOfStr (t : String) : Option U :=
+  if t == "n" then some .none
+  else if t.startsWith "c" then
+    match ((t.drop 1).toString.splitOn ".").mapM (·.toNat?) with
+    | some [k, i] => some (.conv k i)
+    | _ => none
+  else if t.startsWith "o" then (t.drop 1).toString.toNat?.map .other
+  else none
+
+def decodeChars (h : String) : Option (List Char) := (hexDecode h).map (·.toList)
+
 def handle : List String → String
+  | ["tokens", h] =>
+    match decodeChars h with
+    | some s => "ok " ++ " ".intercalate ((lex s).map fun t => s!"{t.kind.toNat}:{t.pos}")
+    | none => "bad-op"
+  | ["kinds", h] =>
+    match decodeChars h with
+    | some s => "ok " ++ hexEncode (String.ofList (normNL s))
+    | none => "bad-op"
+  | ["nlcheck", h] =>
+    match decodeChars h with
+    | some s =>
+      match [NL.lf, .crlf, .cr, .ff].find? (fun k => !nlInvariantAt k s) with
+      | none => "ok holds"
+      | some k => "ok fails " ++ (match k with | .lf => "lf" | .crlf => "crlf" | .cr => "cr" | .ff => "ff")
+    | none => "bad-op"
+  | ["subst", k, h] =>
+    match nlOfStr k, decodeChars h with
+    | some k, some s => "ok " ++ hexEncode (String.ofList (substNewlines k (normNL s)))
+    | _, _ => "bad-op"
+  | ["span", h, lo, hi] =>
+    match decodeChars h, lo.toNat?, hi.toNat? with
+    | some s, some lo, some hi => "ok " ++ boolStr (spanInFile s lo hi)
+    | _, _, _ => "bad-op"
+  | ["norm", h] =>
+    match decodeChars h with
+    | some s => "ok " ++ hexEncode (String.ofList (identNorm s))
+    | none => "bad-op"
+  | ["normeq", a, b] =>
+    match decodeChars a, decodeChars b with
+    | some a, some b => "ok " ++ boolStr (identNorm a == identNorm b) ++ " " ++ boolStr (decide (eqUpTo a b))
+    | _, _ => "bad-op"
+  | ["scan", name, y, pre, sub, suf] =>
+    match synOfStr y, decodeChars pre, decodeChars sub, decodeChars suf with
+    | some y, some pre, some sub, some suf => scanOp name y pre sub suf
+    | _, _, _, _ => "bad-op"
+  | ["asfound", fuel, h, start] =>
+    match fuel.toNat?, decodeChars h, start.toNat? with
+    | some fuel, some s, some start =>
+      let ts := (lex s).toArray
+      match sassLoudAsFound fuel (ts.map (·.kind)) start with
+      | .outOfFuel => "ok out-of-fuel"
+      | .done r => "ok done " ++ resStr ts start 0 r
+    | _, _, _ => "bad-op"
+  | ["clamp", af, a, b, c] =>
+    match parseBool? af, unitOfStr a, unitOfStr b, unitOfStr c with
+    | some af, some a, some b, some c =>
+      (match clampConversions af a b c with | some _ => "ok returns" | none => "ok panics")
+    | _, _, _, _ => "bad-op"
   | _ => "bad-op"
 
 end Grass.Lexer
